@@ -316,6 +316,72 @@ def externals_part(res):
     return viol
 
 
+# ------------------------------------------------------------------------ (6) diagram rules
+
+
+def norm_diagram_outcome(got, im):
+    if got[0] != "FAIL":
+        return (got[0], got[1].split(":")[0] if got[0] == "ERR" else "")
+    try:
+        real, miss = parse_rule_message(got[1], True)
+        real = sorted((rename(a, im), rename(b, im)) for a, b in real)
+        miss = sorted(((k[0], rename(k[1], im), k[2]), tuple(sorted((q, rename(o, im)) for q, o in v))) for k, v in miss.items())
+        return ("FAIL", real, miss)
+    except Unparsable:
+        import re as _re
+
+        return ("FAIL", sorted(_re.sub(r'"([^"]+)"', lambda mm: '"' + rename(mm.group(1), im) + '"', line) for line in got[1].split("\n")))
+
+
+def diagrams_part(ns, I, seed, res, base_dir, only=None):
+    """DiagramRule verdicts and messages under renaming: the same diagram (components renamed
+    accordingly), both naming options, both modes."""
+    from . import c07
+
+    viol = []
+    files = c07.Files(base_dir)
+    ev0 = build(ns, I, seed)
+    evs = {}
+    for rn in RENAMINGS:
+        m = NAMING_MAPS[rn]
+        evs[rn] = (m, build([rename(n, m) for n in ns], [(rename(a, m), rename(b, m)) for a, b in I], seed))
+
+    def run(comps, base_mod, arrows, so, m):
+        outs = {}
+        rc = [rename(c, m) for c in comps]
+        ra = [(rename(a, m), rename(b, m)) for a, b in arrows]
+        r = c07.DiagramRule(should_only_rule=so).from_file(files.path(c07.diagram_text(rc, ra))).base_module_included_in_module_names()
+        outs["dotted"] = r
+        if base_mod is not None:
+            rb = rename(base_mod, m)
+            short = {c: c[len(rb) + 1 :] for c in rc}
+            r2 = c07.DiagramRule(should_only_rule=so).from_file(files.path(c07.diagram_text([short[c] for c in rc], [(short[a], short[b]) for a, b in ra]))).with_base_module(rb)
+            outs["short"] = r2
+        return outs
+
+    for comps, base_mod in c07.component_sets(ns):
+        for arrows in c07.arrow_relations(comps):
+            for so in (True, False):
+                key = [list(comps), base_mod, [list(a) for a in arrows], so]
+                if only is not None and only != key:
+                    continue
+                base = {k: norm_diagram_outcome(run_rule(r, ev0), {}) for k, r in run(comps, base_mod, arrows, so, {}).items()}
+                for rn, (m, ev2) in evs.items():
+                    for k, r in run(comps, base_mod, arrows, so, m).items():
+                        got = norm_diagram_outcome(run_rule(r, ev2), inv(m))
+                        if res is not None:
+                            res.transitions += 2
+                            res.evaluations += 1
+                            res.traces += 1
+                            res.nontrivial += 1
+                            res.stats[f"diagrams:{base[k][0]}"] += 1
+                        if got != base[k]:
+                            viol.append(("diagram-rule-result-changes-under-renaming",
+                                         {"part": "diagrams", "modules": ns, "imports": I, "key": key, "naming_option": k, "renaming": rn, "seed": seed},
+                                         _j(base[k]), _j(got)))
+    return viol
+
+
 # ------------------------------------------------------------------------------ plan / run
 
 
@@ -331,6 +397,8 @@ def plan(tier, seed):
     for s in gs:
         shards.append(dict(s, part="rules", bound="module rules " + s["bound"], tier=tier))
         shards.append(dict(s, part="layers", bound="layer rules " + s["bound"], tier=tier))
+    for s in plan_graph_shards("A", n_max=4, chunk=8 if tier == "quick" else 4):
+        shards.append(dict(s, part="diagrams", bound="diagram rules " + s["bound"], tier=tier))
     for n in range(2, (5 if tier == "quick" else 6)):
         for t in trees(n):
             shards.append({"part": "labels", "tree": t, "k": 2, "bound": "plot labels", "tier": tier})
@@ -339,7 +407,7 @@ def plan(tier, seed):
     for lo in range(0, len(ts), step):
         shards.append({"part": "scan", "lo": lo, "hi": lo + step, "n": 3 if tier == "quick" else 4, "bound": "tree scans", "tier": tier})
     shards.append({"part": "externals", "bound": "externals layout", "tier": tier})
-    return {"shards": shards, "require_nonzero": ["rules:PASS", "rules:FAIL", "layers:PASS", "layers:FAIL", "labels", "scans", "externals"]}
+    return {"shards": shards, "require_nonzero": ["rules:PASS", "rules:FAIL", "layers:PASS", "layers:FAIL", "labels", "scans", "externals", "diagrams:PASS", "diagrams:FAIL"]}
 
 
 def _tuplify(t):
@@ -359,6 +427,17 @@ def run_shard(shard, tier, seed):
                 res.violation(kind, case, exp, got)
             if res.states == 1 and I:
                 res.sample({"modules": ns, "imports": I, "renamings": {rn: [rename(n, NAMING_MAPS[rn]) for n in ns] for rn in RENAMINGS}})
+    elif part == "diagrams":
+        from ..common import remove_scratch, scratch_dir
+
+        base_dir = scratch_dir(f"c14-diag-{shard.get('lo', 0)}-{abs(hash(str(shard['tree']))) % 10**6}")
+        try:
+            for ns, I in shard_graphs(shard, seed):
+                res.states += 1
+                for kind, case, exp, got in diagrams_part(ns, I, seed, res, base_dir):
+                    res.violation(kind, case, exp, got)
+        finally:
+            remove_scratch(base_dir)
     elif part == "labels":
         ns = nodes(_tuplify(shard["tree"]))
         res.states += 1
@@ -387,6 +466,15 @@ def _check_case(case):
     elif part == "layers":
         v = layers_part(case["modules"], [tuple(e) for e in case["imports"]], case.get("seed", 0), None, only=[case["layers"], case["rule"]])
         v = [x for x in v if x[1]["renaming"] == case["renaming"]]
+    elif part == "diagrams":
+        from ..common import remove_scratch, scratch_dir
+
+        base_dir = scratch_dir("c14-diag-replay")
+        try:
+            v = diagrams_part(case["modules"], [tuple(e) for e in case["imports"]], case.get("seed", 0), None, base_dir, only=case["key"])
+        finally:
+            remove_scratch(base_dir)
+        v = [x for x in v if x[1]["renaming"] == case["renaming"] and x[1]["naming_option"] == case["naming_option"]]
     elif part == "labels":
         r = c17.check(case["modules"], [], case["aliases"], None, {}, None)
         return ("plot-label-ignores-dotted-boundaries", r[1], r[2]) if r else None
